@@ -71,6 +71,15 @@ Proof.
   apply Nat.eqb_eq in E. subst. reflexivity.
 Qed.
 
+Lemma mark_pc tb : forall ts t, t_pc (mark_sclosed tb ts t) = t_pc (ts t).
+Proof.
+  induction tb as [|[sid o] tb IH]; intros ts t; cbn [mark_sclosed]; [reflexivity|].
+  rewrite IH. unfold upd. destruct (Nat.eqb t o) eqn:E; [|reflexivity].
+  apply Nat.eqb_eq in E. subst. reflexivity.
+Qed.
+Lemma pcof_mark s t : pcof (mark_state s) t = pcof s t.
+Proof. unfold pcof, mark_state. cbn. apply mark_pc. Qed.
+
 (* ---- release ---- *)
 Definition leaving (s : state) (t : tid) (ws : list tid) : Prop :=
   NoDup ws /\ ~ In t ws /\
@@ -247,6 +256,9 @@ Proof.
     + unfold quiet. split; [reflexivity | split; [reflexivity | intros t'; reflexivity]].
 Qed.
 
+Lemma quiet_mark s : quiet s (mark_state s).
+Proof. unfold quiet. split; [reflexivity | split; [reflexivity | intros t'; apply pcof_mark]]. Qed.
+
 Lemma neutral_idle : neutral PIdle = true. Proof. reflexivity. Qed.
 
 Lemma inv_enter_close s t a k :
@@ -265,7 +277,8 @@ Proof.
   intros HI. destruct ev; try (eapply inv_quiet; [exact HI | apply quiet_feed_nonclosing; exact I]).
   - unfold feed_ev. destruct (negb (ralive s)); [exact HI|].
     destruct (pc_is_idle (t_pc (tasks s rtid))) eqn:E; [|exact HI].
-    apply inv_enter_close; [exact HI|]. unfold pcof. destruct (t_pc (tasks s rtid)); try discriminate. reflexivity.
+    apply inv_enter_close; [eapply inv_quiet; [exact HI | apply quiet_mark]|]. rewrite pcof_mark.
+    unfold pcof. destruct (t_pc (tasks s rtid)); try discriminate. reflexivity.
   - unfold feed_ev. destruct (negb (ralive s)); [exact HI|].
     destruct (pc_is_idle (t_pc (tasks s rtid))) eqn:E; [|exact HI].
     apply inv_enter_close; [exact HI|]. unfold pcof. destruct (t_pc (tasks s rtid)); try discriminate. reflexivity.
@@ -384,7 +397,7 @@ Proof.
   intros N. destruct ev; try (eapply neutral_after_quiet; [apply quiet_feed_nonclosing; exact I | exact N]);
   unfold feed_ev; destruct (negb (ralive s)); try exact N;
   destruct (pc_is_idle (t_pc (tasks s rtid))); try exact N.
-  - apply neutral_after_enter_close. exact N.
+  - apply neutral_after_enter_close. rewrite pcof_mark. exact N.
   - apply neutral_after_enter_close. exact N.
   - eapply neutral_after_pcu; [apply pcu_set_pc | reflexivity | exact N].
 Qed.
@@ -414,6 +427,68 @@ Qed.
 Lemma quiet_set_task_again s t v1 v2 :
   t_pc v2 = t_pc v1 -> quiet (set_task s t v1) (set_task (set_task s t v1) t v2).
 Proof. intros H. apply quiet_set_task_samepc. rewrite pcof_set_task_same. exact H. Qed.
+
+(* ---- the pump: what a push or the close notification does to it ---- *)
+Lemma quiet_set_pump s q pu o d : quiet s (set_pump s q pu o d).
+Proof. quiet_refl_like. Qed.
+
+Lemma pcu_then_quiet s s1 s2 t p : pc_update s s1 t p -> quiet s1 s2 -> pc_update s s2 t p.
+Proof.
+  intros (A1 & A2 & A3 & A4) (B1 & B2 & B3). unfold pc_update.
+  split; [congruence | split; [congruence | split; [rewrite B3; exact A3 |]]].
+  intros t' H. rewrite B3. apply A4. exact H.
+Qed.
+
+Definition pump_target (q : pc) : Prop := q = PIdle \/ exists f, q = PW0 WkPump f.
+Lemma pump_target_neutral q : pump_target q -> neutral q = true.
+Proof. intros [->|[f ->]]; reflexivity. Qed.
+Definition pump_effect (s s' : state) : Prop :=
+  quiet s s' \/ exists p, pcof s p = PPwait /\ exists q, pump_target q /\ pc_update s s' p q.
+
+Lemma inv_pump_effect s s' : Inv s -> pump_effect s s' -> Inv s'.
+Proof.
+  intros HI [Q|(p & E & q & Nq & U)]; [eapply inv_quiet; eauto|].
+  eapply inv_pc_update; [exact HI | exact U | rewrite E; reflexivity | apply pump_target_neutral; exact Nq].
+Qed.
+
+Lemma neutral_after_pump_effect s s' u : pump_effect s s' -> neutral (pcof s u) = true -> neutral (pcof s' u) = true.
+Proof.
+  intros [Q|(p & E & q & Nq & U)] N; [eapply neutral_after_quiet; eauto|].
+  eapply neutral_after_pcu; [exact U | apply pump_target_neutral; exact Nq | exact N].
+Qed.
+
+Lemma pcof_pump_effect_other s s' u : pump_effect s s' -> pcof s u <> PPwait -> pcof s' u = pcof s u.
+Proof.
+  intros [(_ & _ & Q)|(p & E & q & _ & (_ & _ & _ & O))] N; [apply Q|].
+  apply O. intros ->. apply N. exact E.
+Qed.
+
+Lemma pump_effect_locks s s' : pump_effect s s' -> wr s' = wr s /\ waiters s' = waiters s.
+Proof. intros [(A & B & _)|(p & _ & q & _ & (A & B & _))]; split; assumption. Qed.
+
+Lemma pump_effect_wake s : pump_effect s (wake_pump_closed s).
+Proof.
+  unfold wake_pump_closed. destruct (pump_owner s) as [p|]; [|left; apply quiet_refl].
+  destruct (is_ppwait (t_pc (tasks s p))) eqn:E; [|left; apply quiet_refl].
+  right. exists p. split; [unfold pcof; destruct (t_pc (tasks s p)); try discriminate; reflexivity|].
+  exists PIdle. split; [left; reflexivity|].
+  eapply pcu_then_quiet; [apply pcu_finish | apply quiet_set_pump].
+Qed.
+
+Lemma pump_effect_push s t f : pump_effect s (push_item s t f).
+Proof.
+  unfold push_item.
+  set (s1 := set_pump s (dq s) (pushed s ++ [(t, f)]) (pump_owner s) (pump_done s)).
+  assert (quiet s s1) as Q1 by apply quiet_set_pump.
+  destruct (pump_owner s) as [p|]; [|left; eapply quiet_trans; [exact Q1 | apply quiet_set_pump]].
+  destruct (is_ppwait (t_pc (tasks s p))) eqn:E; [|left; eapply quiet_trans; [exact Q1 | apply quiet_set_pump]].
+  right. exists p. split; [unfold pcof; destruct (t_pc (tasks s p)); try discriminate; reflexivity|].
+  destruct (closed s).
+  - exists PIdle. split; [left; reflexivity|].
+    eapply quiet_pcu; [exact Q1|]. eapply pcu_then_quiet; [apply pcu_finish | apply quiet_set_pump].
+  - exists (PW0 WkPump f). split; [right; exists f; reflexivity|].
+    eapply quiet_pcu; [exact Q1|]. apply (pcu_set_task s1 p (with_pc (tasks s p) (PW0 WkPump f))).
+Qed.
 
 Theorem step_inv s t s' : Inv s -> step s t = Some s' -> Inv s'.
 Proof.
@@ -460,12 +535,36 @@ Proof.
         -- apply pcu_finish.
         -- apply neutral_after_feed. exact N0.
         -- reflexivity.
+    + (* CSend *)
+      destruct (t_sid (with_prog (tasks s t) rest)); [destruct (t_sclosed (with_prog (tasks s t) rest) || pump_done s)|];
+        inversion H; subst.
+      * eapply inv_pc_update; [exact HI0 | apply pcu_finish | exact N0 | reflexivity].
+      * apply inv_pc_update with (s := push_item s0 t (psh_frame n payload)) (t := t) (p := PIdle).
+        -- eapply inv_pump_effect; [exact HI0 | apply pump_effect_push].
+        -- apply pcu_finish.
+        -- eapply neutral_after_pump_effect; [apply pump_effect_push | exact N0].
+        -- reflexivity.
+      * eapply inv_pc_update; [exact HI0 | apply pcu_finish | exact N0 | reflexivity].
+    + (* CPump *)
+      destruct (pump_owner s) as [p|].
+      * destruct (negb (Nat.eqb p t)); [|destruct (pump_done s); [|destruct (dq s) as [|[u f] q]; [|destruct (closed s)]]];
+          inversion H; subst.
+        -- eapply inv_pc_update; [exact HI0 | apply pcu_finish | exact N0 | reflexivity].
+        -- eapply inv_pc_update; [exact HI0 | apply pcu_finish | exact N0 | reflexivity].
+        -- eapply inv_pc_update; [exact HI0 | apply pcu_set_task | exact N0 | reflexivity].
+        -- eapply inv_qp with (s := s0) (s1 := set_dq s0 q);
+             [exact HI0 | apply quiet_set_pump | eapply pcu_then_quiet; [apply pcu_finish | apply quiet_set_pump] | exact N0 | reflexivity].
+        -- eapply inv_qp with (s := s0) (s1 := set_dq s0 q);
+             [exact HI0 | apply quiet_set_pump | apply pcu_set_task | exact N0 | reflexivity].
+      * inversion H; subst.
+        eapply inv_qp with (s := s0) (s1 := set_pump s0 (dq s) (pushed s) (Some t) (pump_done s));
+          [exact HI0 | apply quiet_set_pump | apply pcu_finish | exact N0 | reflexivity].
   - (* PW0 *)
     assert (neutral (pcof s t) = true) as N by (unfold pcof; rewrite Epc; reflexivity).
     destruct (closed s); [|destruct (buffering s)]; inversion H; subst.
     + eapply inv_pc_update; [exact HI | apply pcu_finish_w | exact N | reflexivity].
-    + eapply inv_pc_update; [exact HI | apply pcu_set_pc | exact N | reflexivity].
-    + eapply inv_pc_update; [exact HI | apply pcu_set_pc | exact N | reflexivity].
+    + eapply inv_pc_update; [exact HI | apply pcu_set_task | exact N | reflexivity].
+    + eapply inv_pc_update; [exact HI | apply pcu_set_task | exact N | reflexivity].
   - (* PW1 *)
     assert (neutral (pcof s t) = true) as N by (unfold pcof; rewrite Epc; reflexivity).
     inversion H; subst.
@@ -504,9 +603,12 @@ Proof.
     inversion H; subst. apply inv_enter_close; [exact HI|]. unfold pcof. rewrite Epc. reflexivity.
   - (* PC1 *)
     assert (neutral (pcof s t) = true) as N by (unfold pcof; rewrite Epc; reflexivity).
-    inversion H; subst.
-    eapply inv_qp with (s := s) (s1 := set_table (set_tasks s (drain (table s) (tasks s))) (next_sid s) []);
-      [exact HI | | apply pcu_set_pc | exact N | reflexivity].
+    cbv zeta in H. inversion H; subst. clear H.
+    set (s1 := wake_pump_closed s).
+    assert (Inv s1) as HI1 by (eapply inv_pump_effect; [exact HI | apply pump_effect_wake]).
+    assert (neutral (pcof s1 t) = true) as N1 by (eapply neutral_after_pump_effect; [apply pump_effect_wake | exact N]).
+    eapply inv_qp with (s := s1) (s1 := set_table (set_tasks s1 (drain (table s1) (tasks s1))) (next_sid s1) []);
+      [exact HI1 | | apply pcu_set_pc | exact N1 | reflexivity].
     unfold quiet. split; [reflexivity | split; [reflexivity|]]. intros t'. unfold pcof. cbn. apply drain_pc.
   - (* PC2 *)
     assert (neutral (pcof s t) = true) as N by (unfold pcof; rewrite Epc; reflexivity).
@@ -524,6 +626,7 @@ Proof.
   - (* PO1 *)
     assert (neutral (pcof s t) = true) as N by (unfold pcof; rewrite Epc; reflexivity).
     inversion H; subst. eapply inv_pc_update; [exact HI | apply pcu_set_task | exact N | reflexivity].
+  - discriminate.
 Qed.
 
 Lemma inv_init progs buf pend : Inv (init progs buf pend).
